@@ -8,6 +8,10 @@
        | (i (ANN...) B (ANN...)) unindented item: checks on the head line, B 1 = block, checks when
          the whole item is accepted (finalize, then metadata)
        | (inc NAME LINE...) include of file NAME with its lines
+       | (cmt CLOSED C...) a `comment` / `test` block: its head line, then the physical lines it
+         swallows, C = e (empty) | w (blanks only) | t (text); CLOSED 1 = an end-marker line follows
+       | long               an unindented line longer than the line buffer
+     the first LINE of a file (of an inc) may be the atom `bom`: the file starts with EF BB BF
    ANN:  K            rejected with class K whatever the options
        | (u NK K)     uses an undeclared name, NK = acct | comm | tag | payee
        | (b K)        a balance assertion that is off
@@ -34,9 +38,31 @@ let rec line_of = function
   | L (A "inc" :: A name :: body) -> RLInclude (z_of_string name, List.map line_of body)
   | _ -> failwith "line"
 
-let file_of = function
-  | L (A "file" :: A name :: body) -> (z_of_string name, List.map line_of body)
+let cline_of = function
+  | A "e" -> CEmpty | A "w" -> CWs | A "t" -> CText
+  | _ -> failwith "comment line"
+
+let split_bom = function
+  | A "bom" :: rest -> (true, rest)
+  | l -> (false, l)
+
+(* the reader of Model/ErrorsReader.v over the lines of Model/Errors.v resolved under the options *)
+let rec xline_of o = function
+  | A "long" -> XLong
+  | L (A "cmt" :: closed :: body) -> XComment (List.map cline_of body, batom closed)
+  | L (A "inc" :: A name :: body) ->
+    let (bom, body) = split_bom body in
+    XInclude (z_of_string name, bom, List.map (xline_of o) body)
+  | x -> XPlain (resolve o (line_of x))
+
+let file_of o = function
+  | L (A "file" :: A name :: body) ->
+    let (bom, body) = split_bom body in
+    ((z_of_string name, bom), List.map (xline_of o) body)
   | _ -> failwith "file"
+
+(* "every item is valid" is judged on the lines a reader that strips the mark would see *)
+let ideal_rd = { rd_bom = z_of_int 1; rd_long_counted = true; rd_long_recovers = true }
 
 let show_msg (m : msg) : string =
   let chain = String.concat "," (List.map (fun (f, l) -> string_of_z f ^ ":" ^ string_of_z l) m.m_chain) in
@@ -50,9 +76,9 @@ let handle line =
   match parse_sexp line with
   | L (A "case" :: A id :: L [A "opts"; s; p; m; c] :: files) ->
     let o = { o_strict = batom s; o_pedantic = batom p; o_permissive = batom m; o_check_payees = batom c } in
-    let fs = List.map file_of files in
-    let r = run_session o fs in
-    let clean = List.for_all (fun (_, ls) -> file_clean ls) (resolve_files o fs) in
+    let fs = List.map (file_of o) files in
+    let r = run_xsession fs in
+    let clean = List.for_all (fun (_, ls) -> file_clean ls) (expand_files ideal_rd fs) in
     [Printf.sprintf "%s status=%s errors=%s report=%d clean=%d style=%s msgs=%s" id
        (string_of_z r.r_status) (string_of_z r.r_errors) (if r.r_report then 1 else 0)
        (if clean then 1 else 0) (style_name (checking_style o))
